@@ -67,6 +67,16 @@ TABLE = {
                         "re-index invariance and sortedness+limit of the results on Pandas, Polars, SQLite over the enumerated scope (sort_values / sort / head / iloc themselves are assumed library contracts)"),
         "assumptions": ["string + is an uninterpreted cancellative concatenation; quote_identifier, _indent_and_sep_terms, NearSQLUnaryStep keep what they are given (near_sql rendering not under contract)"],
     },
+    "C27": {
+        "mods": ["contracts.glue"], "keys": ["SQLModel.extend_to_near_sql:window-clause"],
+        "explanation": ("hybrid: PROVED (pyvc, region contract) -- the window clause every SQL dialect gets from SQLModel.extend_to_near_sql: no OVER clause exactly for a row-wise extend; "
+                        "PARTITION BY lists ALL partition columns, quoted, in order; ORDER BY lists ALL order columns in the declared order with ' DESC' exactly on the reversed ones; the clause text is "
+                        "' OVER ( ' [PARTITION BY ...] [ORDER BY ...] ' ) ' and the declared dependencies are exactly partition + order columns. The verified text is the statement range "
+                        "`window_term = \"\"` .. `terms = OrderedDict()` of the real function, re-extracted on every run; the rest of the function (sub-query, term assembly, merge into the sub-query) is dropped. "
+                        "BOUNDED -- every window function on Pandas, Polars and SQLite against a reference implementation over all small tables with total orders, and two consecutive extends with permuted order priority "
+                        "(the Pandas / Polars window code and the per-function SQL are not under contract)"),
+        "assumptions": ["string + is an uninterpreted cancellative concatenation evaluated left to right; sep.join(list) is an uninterpreted function of separator and list; quote_identifier is a function of the name"],
+    },
     "C19": {
         "mods": ["contracts.glue", "contracts.c06_builders"], "keys": ["PandasModel.clean_copy", "PandasModel._table_step"] + RL,
         "groups_extra": [(["contracts.c19_recordmap"], ["RecordMap.transform"])],
